@@ -569,4 +569,3 @@ func (e *Engine) returnHook(st *State, fr *Frame, results []Val, pos token.Pos, 
 	}
 }
 
-func (e *Engine) streamRead(st *State, fr *Frame, reader, buf Val, n, er Val) {}
